@@ -419,4 +419,148 @@ func derivedSet.inheritMutations
   loop 1 invariant held(s.set.mutex)
   loop 1 invariant forall i Int :: 0 <= i && i < len(registeredCallbacks) ==> registeredCallbacks[i] != nil && unlocked(registeredCallbacks[i].executionMutex)
   ensures unlocked(s.set.mutex)
+
+-- ---------------------------------------------------------------------------------------------------------------
+-- DerivedVariable: the function handed to the derived variable's Compute (which runs it under the variable's lock and
+-- stores its result) yields the defining function applied to the reported input and to the CURRENT values of the other
+-- inputs - read inside the locked computation, not before it (a value read earlier may be stale by the time the lock is
+-- taken, and a writer that read it would overwrite the result of a later one). compute is an arbitrary pure function
+-- (cfunN); ReadableVariable[int] is the ghost model vval.
+specfun cfun1(c Int, a Int) Int
+specfun cfun2(c Int, a Int, b Int) Int
+specfun cfun3(c Int, a Int, b Int, d Int) Int
+specfun cfun4(c Int, a Int, b Int, d Int, e Int) Int
+func ReadableVariable.Get(v) (r)
+  ensures r == sel(vval, v)
+
+func NewDerivedVariable$1$1$1
+  instantiate Type: int
+  instantiate InputType1: int
+  instantiate InputValueType1: ReadableVariable[int]
+  callback compute(c, a) (r)
+    ensures r == cfun1(c, a)
+  requires compute != nil && *compute != nil && input1 != nil
+  ensures r0 == cfun1(currentValue, *input1)
+
+func NewDerivedVariable2$1$1$1
+  instantiate Type: int
+  instantiate InputType1: int
+  instantiate InputValueType1: ReadableVariable[int]
+  instantiate InputType2: int
+  instantiate InputValueType2: ReadableVariable[int]
+  callback compute(c, a, b) (r)
+    ensures r == cfun2(c, a, b)
+  requires compute != nil && *compute != nil && input1 != nil && input2 != nil && *input2 != nil
+  ensures r0 == cfun2(currentValue, *input1, sel(vval, *input2))
+
+func NewDerivedVariable2$1$2$1
+  instantiate Type: int
+  instantiate InputType1: int
+  instantiate InputValueType1: ReadableVariable[int]
+  instantiate InputType2: int
+  instantiate InputValueType2: ReadableVariable[int]
+  callback compute(c, a, b) (r)
+    ensures r == cfun2(c, a, b)
+  requires compute != nil && *compute != nil && input1 != nil && *input1 != nil && input2 != nil
+  ensures r0 == cfun2(currentValue, sel(vval, *input1), *input2)
+
+func NewDerivedVariable3$1$1$1
+  instantiate Type: int
+  instantiate InputType1: int
+  instantiate InputValueType1: ReadableVariable[int]
+  instantiate InputType2: int
+  instantiate InputValueType2: ReadableVariable[int]
+  instantiate InputType3: int
+  instantiate InputValueType3: ReadableVariable[int]
+  callback compute(c, a, b, d) (r)
+    ensures r == cfun3(c, a, b, d)
+  requires compute != nil && *compute != nil && input1 != nil && input2 != nil && *input2 != nil && input3 != nil && *input3 != nil
+  ensures r0 == cfun3(currentValue, *input1, sel(vval, *input2), sel(vval, *input3))
+
+func NewDerivedVariable3$1$2$1
+  instantiate Type: int
+  instantiate InputType1: int
+  instantiate InputValueType1: ReadableVariable[int]
+  instantiate InputType2: int
+  instantiate InputValueType2: ReadableVariable[int]
+  instantiate InputType3: int
+  instantiate InputValueType3: ReadableVariable[int]
+  callback compute(c, a, b, d) (r)
+    ensures r == cfun3(c, a, b, d)
+  requires compute != nil && *compute != nil && input1 != nil && *input1 != nil && input2 != nil && input3 != nil && *input3 != nil
+  ensures r0 == cfun3(currentValue, sel(vval, *input1), *input2, sel(vval, *input3))
+
+func NewDerivedVariable3$1$3$1
+  instantiate Type: int
+  instantiate InputType1: int
+  instantiate InputValueType1: ReadableVariable[int]
+  instantiate InputType2: int
+  instantiate InputValueType2: ReadableVariable[int]
+  instantiate InputType3: int
+  instantiate InputValueType3: ReadableVariable[int]
+  callback compute(c, a, b, d) (r)
+    ensures r == cfun3(c, a, b, d)
+  requires compute != nil && *compute != nil && input1 != nil && *input1 != nil && input2 != nil && *input2 != nil && input3 != nil
+  ensures r0 == cfun3(currentValue, sel(vval, *input1), sel(vval, *input2), *input3)
+
+func NewDerivedVariable4$1$1$1
+  instantiate Type: int
+  instantiate InputType1: int
+  instantiate InputValueType1: ReadableVariable[int]
+  instantiate InputType2: int
+  instantiate InputValueType2: ReadableVariable[int]
+  instantiate InputType3: int
+  instantiate InputValueType3: ReadableVariable[int]
+  instantiate InputType4: int
+  instantiate InputValueType4: ReadableVariable[int]
+  callback compute(c, a, b, d, e) (r)
+    ensures r == cfun4(c, a, b, d, e)
+  requires compute != nil && *compute != nil && input1 != nil && input2 != nil && *input2 != nil && input3 != nil && *input3 != nil && input4 != nil && *input4 != nil
+  ensures r0 == cfun4(currentValue, *input1, sel(vval, *input2), sel(vval, *input3), sel(vval, *input4))
+
+func NewDerivedVariable4$1$2$1
+  instantiate Type: int
+  instantiate InputType1: int
+  instantiate InputValueType1: ReadableVariable[int]
+  instantiate InputType2: int
+  instantiate InputValueType2: ReadableVariable[int]
+  instantiate InputType3: int
+  instantiate InputValueType3: ReadableVariable[int]
+  instantiate InputType4: int
+  instantiate InputValueType4: ReadableVariable[int]
+  callback compute(c, a, b, d, e) (r)
+    ensures r == cfun4(c, a, b, d, e)
+  requires compute != nil && *compute != nil && input1 != nil && *input1 != nil && input2 != nil && input3 != nil && *input3 != nil && input4 != nil && *input4 != nil
+  ensures r0 == cfun4(currentValue, sel(vval, *input1), *input2, sel(vval, *input3), sel(vval, *input4))
+
+func NewDerivedVariable4$1$3$1
+  instantiate Type: int
+  instantiate InputType1: int
+  instantiate InputValueType1: ReadableVariable[int]
+  instantiate InputType2: int
+  instantiate InputValueType2: ReadableVariable[int]
+  instantiate InputType3: int
+  instantiate InputValueType3: ReadableVariable[int]
+  instantiate InputType4: int
+  instantiate InputValueType4: ReadableVariable[int]
+  callback compute(c, a, b, d, e) (r)
+    ensures r == cfun4(c, a, b, d, e)
+  requires compute != nil && *compute != nil && input1 != nil && *input1 != nil && input2 != nil && *input2 != nil && input3 != nil && input4 != nil && *input4 != nil
+  ensures r0 == cfun4(currentValue, sel(vval, *input1), sel(vval, *input2), *input3, sel(vval, *input4))
+
+func NewDerivedVariable4$1$4$1
+  instantiate Type: int
+  instantiate InputType1: int
+  instantiate InputValueType1: ReadableVariable[int]
+  instantiate InputType2: int
+  instantiate InputValueType2: ReadableVariable[int]
+  instantiate InputType3: int
+  instantiate InputValueType3: ReadableVariable[int]
+  instantiate InputType4: int
+  instantiate InputValueType4: ReadableVariable[int]
+  callback compute(c, a, b, d, e) (r)
+    ensures r == cfun4(c, a, b, d, e)
+  requires compute != nil && *compute != nil && input1 != nil && *input1 != nil && input2 != nil && *input2 != nil && input3 != nil && *input3 != nil && input4 != nil
+  ensures r0 == cfun4(currentValue, sel(vval, *input1), sel(vval, *input2), sel(vval, *input3), *input4)
+
 @*/
